@@ -131,11 +131,22 @@ func c18reg(c *core.Ctx, record bool) {
 	} else if c.Build != "plain" {
 		ng, nops = r.Range(2, 6), r.Range(10, 50)
 	}
+	// a quarter of the recorded rounds use a tiny value universe {1,2,3}: values
+	// repeat, so "the current value equals old" can become true again through a
+	// different Store - unique values would never exercise that
+	small := record && r.Chance(1, 4)
+	if small {
+		ng, nops = r.Range(2, 4), r.Range(5, 20)
+	}
 	storeFirst := r.Bool() // half of the rounds start from a stored value
 	init := regUnset
 	if storeFirst {
 		reg.store(1 << 40)
 		init = 1 << 40
+		if small {
+			reg.store(1)
+			init = 1
+		}
 	}
 	var clk *clock
 	if record {
@@ -158,6 +169,9 @@ func c18reg(c *core.Ctx, record bool) {
 			for i := 0; i < nops; i++ {
 				n++
 				id := int64(w+1)<<32 | n
+				if small {
+					id = int64(1 + rr.Intn(3))
+				}
 				o := rec{Client: w + 1}
 				if record {
 					o.Call = clk.now()
@@ -180,6 +194,9 @@ func c18reg(c *core.Ctx, record bool) {
 					o.Op, o.Arg, o.Arg2 = opCAS, lastSeen, id
 					if rr.Chance(1, 5) {
 						o.Arg = int64(w+1)<<32 | 9999999 // a value nobody stores
+					}
+					if small {
+						o.Arg = int64(1 + rr.Intn(3))
 					}
 					o.Ok = reg.cas(o.Arg, o.Arg2)
 					if o.Ok {
@@ -209,6 +226,9 @@ func c18reg(c *core.Ctx, record bool) {
 		mode = "race"
 	}
 	c.Count(mode+"_rounds", 1)
+	if small {
+		c.Count(mode+"_rounds_small_universe", 1)
+	}
 	c.Count(mode+"_type_"+reg.name, 1)
 	c.Count(mode+"_calls", int64(ng*nops))
 	extra := map[string]any{"type": reg.name, "goroutines": ng, "ops_each": nops, "store_before_start": storeFirst, "gomaxprocs": runtime.GOMAXPROCS(0)}
